@@ -385,3 +385,96 @@ Proof.
   - unfold json_slice. destruct (utf8_valid inp); [apply slice_loop_total; lia|cbn; discriminate].
   - apply reader_loop_total. lia.
 Qed.
+
+(* ---------- more fuel never changes an answer ---------- *)
+
+Definition not_fuel (r : jres) : Prop := r <> JErr JOutOfFuel.
+
+Definition Vm (f : nat) : Prop := forall d inp evs r, parse_value f d inp = (evs, r) -> not_fuel r ->
+  forall f', f <= f' -> parse_value f' d inp = (evs, r).
+Definition Em (f : nat) : Prop := forall d inp first evs n r, parse_elems f d inp first = (evs, n, r) -> not_fuel r ->
+  forall f', f <= f' -> parse_elems f' d inp first = (evs, n, r).
+Definition Mm (f : nat) : Prop := forall d inp first evs n r, parse_members f d inp first = (evs, n, r) -> not_fuel r ->
+  forall f', f <= f' -> parse_members f' d inp first = (evs, n, r).
+
+Lemma Vm_step f : Em f -> Mm f -> Vm (S f).
+Proof.
+  intros HE HM d inp evs r H Hr f' Hf. destruct f' as [|f']; [lia|]. assert (Hle : f <= f') by lia.
+  cbn [parse_value] in *. destruct (skip_ws inp) as [|b rest]; [exact H|].
+  destruct (b =? 110)%N; [exact H|]. destruct (b =? 116)%N; [exact H|]. destruct (b =? 102)%N; [exact H|].
+  destruct (b =? 45)%N; [exact H|]. destruct (is_digit b); [exact H|]. destruct (b =? 34)%N; [exact H|].
+  destruct (b =? 91)%N.
+  { destruct (d - 1 =? 0); [exact H|].
+    destruct (parse_elems f (d - 1) rest true) as [[e n] res] eqn:E.
+    assert (Hres : not_fuel res) by (destruct res; [discriminate|injection H as _ <-; exact Hr]).
+    now rewrite (HE _ _ _ _ _ _ E Hres f' Hle). }
+  destruct (b =? 123)%N; [|exact H].
+  destruct (d - 1 =? 0); [exact H|].
+  destruct (parse_members f (d - 1) rest true) as [[e n] res] eqn:E.
+  assert (Hres : not_fuel res) by (destruct res; [discriminate|injection H as _ <-; exact Hr]).
+  now rewrite (HM _ _ _ _ _ _ E Hres f' Hle).
+Qed.
+
+Lemma element_of_mono f f' d at_ evs n r : Vm f -> Em f -> f <= f' ->
+  element_of f d at_ = (evs, n, r) -> not_fuel r -> element_of f' d at_ = (evs, n, r).
+Proof.
+  intros HV HE Hle H Hr. unfold element_of in *.
+  destruct (parse_value f d at_) as [e1 [rest|e]] eqn:E1.
+  - destruct (parse_elems f d rest false) as [[e2 n2] r2] eqn:E2. injection H as <- <- <-.
+    rewrite (HV _ _ _ _ E1 ltac:(discriminate) f' Hle). now rewrite (HE _ _ _ _ _ _ E2 Hr f' Hle).
+  - injection H as <- <- <-. now rewrite (HV _ _ _ _ E1 Hr f' Hle).
+Qed.
+
+Lemma Em_step f : Vm f -> Em f -> Em (S f).
+Proof.
+  intros HV HE d inp first evs n r H Hr f' Hf. destruct f' as [|f']; [lia|]. assert (Hle : f <= f') by lia.
+  rewrite parse_elems_unfold in *. destruct (skip_ws inp) as [|b rest]; [exact H|].
+  destruct (b =? 93)%N; [exact H|]. destruct first; [now apply (element_of_mono f)|].
+  destruct (b =? 44)%N; [|exact H]. destruct (skip_ws rest) as [|c r']; [exact H|].
+  destruct (c =? 93)%N; [exact H|]. now apply (element_of_mono f).
+Qed.
+
+Lemma member_of_mono f f' d at_ evs n r : Vm f -> Mm f -> f <= f' ->
+  member_of f d at_ = (evs, n, r) -> not_fuel r -> member_of f' d at_ = (evs, n, r).
+Proof.
+  intros HV HM Hle H Hr. unfold member_of in *.
+  destruct (parse_string at_) as [[k|] [r1|e]]; try exact H.
+  destruct (skip_ws r1) as [|c r2]; [exact H|]. destruct (c =? 58)%N; [|exact H].
+  destruct (parse_value f d r2) as [e1 [rest|e]] eqn:E1.
+  - destruct (parse_members f d rest false) as [[e2 n2] r3] eqn:E2. injection H as <- <- <-.
+    rewrite (HV _ _ _ _ E1 ltac:(discriminate) f' Hle). now rewrite (HM _ _ _ _ _ _ E2 Hr f' Hle).
+  - injection H as <- <- <-. now rewrite (HV _ _ _ _ E1 Hr f' Hle).
+Qed.
+
+Lemma Mm_step f : Vm f -> Mm f -> Mm (S f).
+Proof.
+  intros HV HM d inp first evs n r H Hr f' Hf. destruct f' as [|f']; [lia|]. assert (Hle : f <= f') by lia.
+  rewrite parse_members_unfold in *. destruct (skip_ws inp) as [|b rest]; [exact H|].
+  destruct (b =? 125)%N; [exact H|].
+  destruct first.
+  { destruct (b =? 34)%N; [|exact H]. now apply (member_of_mono f). }
+  destruct (b =? 44)%N; [|exact H]. destruct (skip_ws rest) as [|c r']; [exact H|].
+  destruct (c =? 34)%N; [|exact H]. now apply (member_of_mono f).
+Qed.
+
+Lemma mono_all : forall f, Vm f /\ Em f /\ Mm f.
+Proof.
+  induction f as [|f (HV & HE & HM)].
+  - repeat split.
+    + intros d inp evs r H Hr. cbn in H. injection H as _ <-. now elim Hr.
+    + intros d inp first evs n r H Hr. cbn in H. injection H as _ _ <-. now elim Hr.
+    + intros d inp first evs n r H Hr. cbn in H. injection H as _ _ <-. now elim Hr.
+  - repeat split; [apply Vm_step|apply Em_step|apply Mm_step]; assumption.
+Qed.
+
+(* If the reader gives an answer other than "out of fuel" with some fuel, json_value gives the same answer. *)
+Theorem json_value_any_fuel f inp evs rest :
+  parse_value f JSON_DEPTH inp = (evs, JOk rest) -> json_value inp = (evs, JOk rest).
+Proof.
+  intros H. unfold json_value. destruct (Nat.le_ge_cases f (json_fuel inp)) as [Hle|Hge].
+  - exact (proj1 (mono_all f) _ _ _ _ H ltac:(discriminate) _ Hle).
+  - pose proof (json_value_total inp) as Ht. unfold json_value in Ht.
+    destruct (parse_value (json_fuel inp) JSON_DEPTH inp) as [e0 r0] eqn:E0. cbn [snd] in Ht.
+    assert (Hnf : not_fuel r0) by (destruct r0; [discriminate|cbn [lt_res] in Ht; unfold not_fuel; congruence]).
+    pose proof (proj1 (mono_all _) _ _ _ _ E0 Hnf f Hge) as E1. rewrite H in E1. now injection E1 as <- <-.
+Qed.
